@@ -29,6 +29,19 @@ LookupOK ==
         /\ BinOf(ed, v) # NONE <=> (Len(ed) >= 2 /\ ed[1] <= v /\ v < ed[Len(ed)])
         /\ BinOf(ed, v) # NONE => (ed[BinOf(ed, v) + 1] <= v /\ v < ed[BinOf(ed, v) + 2])
 
+(* Tie to LookupProof.tla (TLAPS, every length): the binary-search outcome that IndicesOfImpl derives satisfies the     *)
+(* contract assumed there, and IndicesOfImpl is the Match function proved correct there.                             *)
+LP == INSTANCE LookupAlg
+SearchOk(v)  == \E x \in DOMAIN ed : ed[x] = v
+SearchPos(v) == IF SearchOk(v) THEN (CHOOSE x \in DOMAIN ed : ed[x] = v) - 1 ELSE Cardinality({x \in DOMAIN ed : ed[x] < v})
+ContractOK ==
+    \A v \in Probes :
+        LET ok == SearchOk(v)  i == SearchPos(v)  n == Len(ed) IN
+        /\ i \in 0..n
+        /\ ok => (i < n /\ ed[i + 1] = v)
+        /\ ~ok => \A x \in 1..n : (x <= i => ed[x] < v) /\ (x > i => ed[x] > v)
+MatchOK == \A v \in Probes : LP!Match(Len(ed), SearchOk(v), SearchPos(v)) = IndicesOfImpl(ed, v)
+
 (* number of bins, by-position accessors *)
 AccessorsOK ==
     /\ BinsLen(ed) = Max2(Len(ed) - 1, 0)
